@@ -88,7 +88,7 @@ Outcome(c) ==
              \* refuses the next frame, aioquic compares the lengths only at the end of the stream (ExcessBodyToH1)
              ELSE IF c.cls = "cl_short_mid"
                   THEN [base EXCEPT !.n = 1, !.complete = TRUE, !.extra = IF c.from = "h3" THEN 1 ELSE 0,
-                                    !.recv = [Recv(c) EXCEPT !.body = <<>>]]
+                                    !.recv = [Recv(c) EXCEPT !.body = SubSeq(c.sent.body, 1, 2)]]   \* the declared 2 bytes
              ELSE base)
   ELSE IF c.to = "h1" /\ c.from # "h1" /\ c.dir = "req" /\ c.cls \in {"space_path", "space_method"}
        THEN [base EXCEPT !.extra = 1, !.mal = "request_line"]                        \* PseudoSpaceToH1
